@@ -18,12 +18,12 @@ from .. import lib_fm_loops as L
 # family -> (quick, thorough) number of programs
 PLAN = {
     # (a) unrolling
-    'unroll': (20, 400), 'unroll-select': (5, 70), 'unroll-negpow': (4, 50), 'unroll-exitcycle': (4, 50),
-    'unroll-loopvar': (4, 50), 'unroll-print': (4, 50),
+    'unroll': (20, 225), 'unroll-select': (5, 40), 'unroll-negpow': (4, 30), 'unroll-exitcycle': (4, 30),
+    'unroll-loopvar': (4, 30), 'unroll-print': (4, 30),
     # (b) legal by construction
-    'fusion': (9, 160), 'fusion-mismatch': (9, 160), 'fusion-collapse': (5, 90),
-    'fission': (9, 160), 'fission-autopromote': (5, 80), 'fission-promote': (7, 110), 'fission-promote-lb': (4, 50),
-    'interchange': (9, 160), 'interchange-project': (6, 90), 'split': (8, 140), 'block': (7, 110),
+    'fusion': (9, 90), 'fusion-mismatch': (9, 90), 'fusion-collapse': (5, 50),
+    'fission': (9, 90), 'fission-autopromote': (5, 45), 'fission-promote': (7, 60), 'fission-promote-lb': (4, 30),
+    'interchange': (9, 90), 'interchange-project': (6, 50), 'split': (8, 80), 'block': (7, 60),
 }
 
 
